@@ -82,7 +82,8 @@ def run_job(args):
             for k, v in job.get("preset", {}).items():
                 st.env[k] = v
             if job.get("summaries", True):
-                PR.install_scanner_summaries(ex.m, scanner_names(prog))
+                skip = set(job.get("no_summary") or ())
+                PR.install_scanner_summaries(ex.m, [n for n in scanner_names(prog) if n not in skip])
         else:
             inst = [i for i in prog.insts if i["npath"] == job["root"] and i["local"] and i["body"]]
             if len(inst) != 1:
@@ -103,7 +104,8 @@ def run_job(args):
             "subsumed": ex.nsubsumed, "budget": budget_hit,
             "obligations": {k: [v[0], v[1], v[2]] for k, v in m.obl.items()},
             "violations": [dict(v, count=m.vcount.get((v["rule"], v["detail"]), 1), eof_paths=sorted(m.veof.get((v["rule"], v["detail"]), ())),
-                                options_on=sorted(m.vcfg.get((v["rule"], v["detail"]), ()))) for v in m.violations],
+                                options_on=sorted(m.vcfg.get((v["rule"], v["detail"]), ())),
+                                default_alive=sorted(m.vdef.get((v["rule"], v["detail"]), ()))) for v in m.violations],
             "unanalysable": dedup_unanalysable(ex.unanalysable),
             "verdicts": verdict_histogram(ex.results),
             "instances": sorted(set(visited_instances(ex, prog))),
